@@ -1,6 +1,7 @@
 """C03 — event dictionaries resolve to the documented device messages.
 Theorems: coq/Props/C03.v about the model coq/Sched/Event.v (Event.__init__, EventDefaults, Track.perform_event and
-the one-track part of Timeline.tick), with the parameter list and the library defaults regenerated from the source
+the one-track part of Timeline.tick) and its extension coq/Sched/EventCfg.v (the timeline's defaults object as part of the
+state: assignments between ticks, one pull per pattern-valued default and event), with the parameter list and the library defaults regenerated from the source
 (coq/Generated/TablesC03.v).  Correspondence: Event(dict, defaults) attributes and the per-tick device calls of a
 one-track timeline of the repository against the model, inside Coq (vm_compute).  Oracle: a direct Python rendering
 of docs/events/*.md (closed pitch formula, precedence list, synonym table, default chain) judges every
@@ -12,7 +13,7 @@ PROP = "C03"
 EXTRA_GENERATORS = ["gen_tables_c03.py"]
 META = {
  "engine": "S-scheduler",
- "text": "Coq theorems (Props/C03.v, closed under the global context) about an executable model of Event.__init__ / EventDefaults / Track.perform_event (Sched/Event.v, transcribed branch by branch over a small Python-value type; parameter names, ALL_EVENT_PARAMETERS and the library defaults are regenerated from the source on every run): every chord voice of a degree event plays tonic + scale[floor(d) mod n] + octave_size*floor(floor(d)/n) + 12*octave + transpose (negative degrees descend), a note event plays note + 12*octave + transpose; amplitude/gate/channel/duration come from the event (dur, amp, velocity folded), else the timeline defaults' current value, else the generated library default, and a default never overrides an explicit value; the event type is the first present of action > patch > control > program_change > osc_address > synth > note|degree for all 2^7 subsets; control/program-change/OSC/synth/action events emit exactly the matching call; an unknown key, note with degree, or no type key raises and emits no call. The model is tied to the repository on every run: ~4000 (quick) / ~60000 (thorough) generated dictionaries are run through Event(dict, defaults) and through a one-track Timeline with a recording OutputDevice, and the Event attributes, every device call with its tick and arguments, and the escaping exception class are compared with the model inside Coq (vm_compute); an independent oracle written from docs/events judges every implementation result on the documented domain and supplies the failing input.",
+ "text": "Coq theorems (Props/C03.v, closed under the global context) about an executable model of Event.__init__ / EventDefaults / Track.perform_event (Sched/Event.v, transcribed branch by branch over a small Python-value type; parameter names, ALL_EVENT_PARAMETERS and the library defaults are regenerated from the source on every run): every chord voice of a degree event plays tonic + scale[floor(d) mod n] + octave_size*floor(floor(d)/n) + 12*octave + transpose (negative degrees descend), a note event plays note + 12*octave + transpose; amplitude/gate/channel/duration come from the event (dur, amp, velocity folded), else the timeline defaults' current value, else the generated library default, and a default never overrides an explicit value; the event type is the first present of action > patch > control > program_change > osc_address > synth > note|degree for all 2^7 subsets; control/program-change/OSC/synth/action events emit exactly the matching call; an unknown key, note with degree, or no type key raises and emits no call. The model is tied to the repository on every run: ~4000 (quick) / ~60000 (thorough) generated dictionaries are run through Event(dict, defaults) and through a one-track Timeline with a recording OutputDevice, and the Event attributes, every device call with its tick and arguments, and the escaping exception class are compared with the model inside Coq (vm_compute); an independent oracle written from docs/events judges every implementation result on the documented domain and supplies the failing input. Streams of several dictionaries are judged dictionary by dictionary on the documented time grid (a malformed dictionary at ANY position of a stream must raise and play nothing; theorems C03_reject_*_anywhere), and the timeline's defaults are re-assigned between two events of a running track (the defaults in force when a dictionary is due complete it; model Sched/EventCfg.v with the defaults object in its state, theorems C03_current_defaults_complete_the_event, C03_reassigned_default, C03_stream_without_reassignment).",
  "note": "Trusted: Coq kernel + VM; gen_tables.py / gen_tables_c03.py; the Python harness (case encoding, the recording device, first-value substitution for pattern-valued dictionary entries); CPython int semantics (//, % = Z.div/Z.modulo; int(float) truncates). Modelled, not verified: floats are exact rationals in the model (the harness only generates dyadic rationals on the 1/256 grid, where isobar's round(x, 8) comparisons are exact); SignalFlow patch events are classified but not dispatched; the generic-event ('event' method) device path, on_event callbacks, interpolation and str-typed numbers are outside the model (Unmodelled outcome, such cases are discarded and counted).",
 }
 
@@ -448,6 +449,9 @@ def oracle_stream(case, scales, note_names):
         o = oracle(one, scales, note_names)
         if o is None or (o[0] == "calls" and o[1] is None):
             horizon = s
+            break
+        if o[0] == "calls" and doc_duration(ev, dfl) is None:
+            horizon = s                                     # a dictionary whose duration is not a documented one: not judged
             break
         if o[0] == "reject":
             horizon, reject = s, s
@@ -1302,7 +1306,9 @@ def check(run):
     run.cov["rule"] = ("one case = one track of 1-3 event dictionaries with timeline-default overrides, run through Event(dict, defaults) "
                        "and through a one-track Timeline (4 ticks per beat) with a recording OutputDevice; streams: note events (product of "
                        "degree/note x key x octave x transpose x chord shape x per-voice tuples x synonyms x default overrides x pattern entries), "
-                       "every subset of the six type keys x {none, note, degree, both}, malformed dictionaries, sequences of 2-3 dictionaries; "
+                       "every subset of the six type keys x {none, note, degree, both}, malformed dictionaries, sequences of 2-3 dictionaries, "
+                       "streams whose k-th dictionary (k = 0..3) is malformed, streams of 2-6 dictionaries during which timeline.defaults.<name> is "
+                       "re-assigned between two ticks (also between schedule() and the first tick, constants and patterns, replayed dictionary objects); "
                        "distinct by the encoded case; non-trivial = the device received at least one call or an exception escaped")
 
 
